@@ -486,6 +486,10 @@ func (r *sessRunner) step(ev *sessEvent, created map[string]bool) {
 				}
 			}
 		case "execute", "contribute", "commit", "abort":
+			// the time limit counts from the preparation: no later message moves the start
+			if active && post != nil && !post.Started.Equal(preS.Started) {
+				fail("%s moved the start of the generation, from which its time limit counts, by %v", ev.Kind, post.Started.Sub(preS.Started))
+			}
 			if !active {
 				if err == nil {
 					fail("%s accepted without an active generation", ev.Kind)
@@ -731,6 +735,19 @@ func genSessSeq(rng *PRNG, ids []uint64, self uint64, handler bool, n int) []ses
 					e.Caller, e.Sender = nodeName(id), id
 					out = append(out, e)
 				}
+			}
+			// a generation that keeps receiving messages still ends at its time limit, counted from the preparation
+			if rng.Chance(6) {
+				out = append(out, sessEvent{Kind: "advance", Sleep: sessTimeout/2 + 50*time.Millisecond})
+				for _, id := range p {
+					if id < self && id != 0 {
+						e := sessEvent{Kind: "contribute", Acct: a}
+						e.Caller, e.Sender = nodeName(id), id
+						out = append(out, e)
+					}
+				}
+				out = append(out, sessEvent{Kind: "advance", Sleep: sessTimeout/2 + sessMargin + 30*time.Millisecond})
+				add(sessEvent{Kind: []string{"abort", "prepare", "commit"}[rng.Intn(3)], Acct: a, Thr: thr, Parts: p})
 			}
 			if rng.Chance(15) {
 				add(sessEvent{Kind: "execute", Acct: a})
